@@ -359,6 +359,22 @@ def judge_vars(t, got, rows=None):
     return bad
 
 
+# ------------------------------------------------------------------ regenerated constants
+def regen_consts():
+    """coq/Gen/CsvConsts.v from the sources of the tree under test (translate/csv_consts.py).
+    returns (regenerated?, problems)"""
+    import os
+    import sys
+    sys.path.insert(0, os.path.join(vv.VERIF, "translate"))
+    import csv_consts
+    c, problems, text = csv_consts.generate(os.path.join(vv.REPO, "src"))
+    if problems or text is None:
+        return False, problems or ["translator produced nothing"]
+    with vv.Lock("coq"):
+        vv.write_if_changed(os.path.join(vv.COQ, "Gen", "CsvConsts.v"), text)
+    return True, []
+
+
 # ------------------------------------------------------------------ running
 def build():
     """harness + model.  The C++ build cache under .build/ is shared by all checks and garbage-collected by count
